@@ -29,6 +29,7 @@ theorem brStep_inv (cfg : Cfg) (now : Nat) (b : Breaker) (k : Kind) (h : BrInv c
       | cacheHit => simpa [applyKind, Kind.isFailure] using h
       | raised => simpa [applyKind, Kind.isFailure] using h
       | admin => simpa [applyKind, Kind.isFailure] using h
+      | aborted => simpa [applyKind, Kind.isFailure] using h
       | agentExc =>
         simp only [applyKind, Kind.isFailure, recordFailure]
         cases hc : b.cstate <;> simp [hc] at h ⊢
@@ -55,6 +56,7 @@ theorem brStep_inv (cfg : Cfg) (now : Nat) (b : Breaker) (k : Kind) (h : BrInv c
       | cacheHit => simp [applyKind, Kind.isFailure]; exact hthr
       | raised => simp [applyKind, Kind.isFailure]; exact hthr
       | admin => simp [applyKind, Kind.isFailure]; exact hthr
+      | aborted => simp [applyKind, Kind.isFailure]; exact hthr
       | agentExc => simp [applyKind, Kind.isFailure, recordFailure]; omega
       | gated ev =>
         cases ev with
@@ -221,6 +223,7 @@ theorem brStep_nonfailure (cfg : Cfg) (now : Nat) (b : Breaker) (k : Kind) (hk :
       | cacheHit => rcases hb' with h | h <;> subst h <;> simp [applyKind]
       | raised => rcases hb' with h | h <;> subst h <;> simp [applyKind]
       | admin => rcases hb' with h | h <;> subst h <;> simp [applyKind]
+      | aborted => rcases hb' with h | h <;> subst h <;> simp [applyKind]
     rcases enter_cases cfg now b with ha | ⟨_, _, _, ha⟩
     · have := key _ (Or.inl ha)
       exact ⟨this.1, this.2.1, this.2.2.1, this.2.2.2.1, fun h => (this.2.2.2.2 h).1⟩
